@@ -8,6 +8,7 @@ documented `heapq` contract (`HeapLib.Lawful`).
 -/
 import Asynkit.Lemmas.PQ
 import Asynkit.Lemmas.PosPQ
+import Asynkit.Lemmas.CpyHeap
 import Asynkit.Model.PQStep
 import Asynkit.Model.PosPQStep
 
@@ -254,6 +255,14 @@ example : ∃ L, R (fun a b : Int => decide (a < b))
   have h2 : (run (sortedHeap _) (fun a b : Int => decide (a < b))
       [.add 1 10, .add 0 11, .add 0 12, .pop]).1.pq.length = 2 := by decide
   omega
+
+/-- CPython's own `heapq` algorithms (`_siftdown`, `_siftup`, `heappush`, `heappop`, `heapify`,
+    transcribed comparison for comparison in `Model/Heap.lean` and compared array-for-array with
+    the real `_pq` by the harness) meet the contract: the hypothesis `H.Lawful` of the theorems
+    above is discharged for `H := cpyHeap`, for every strict-weak-order priority type. -/
+theorem cpython_heapq_lawful [Inhabited π] (hs : StrictWeak plt) :
+    (cpyHeap (Entry π)).Lawful (Entry.lt plt) :=
+  cpyHeap_lawful (entryLt_strictWeak hs)
 
 /-! ## `PosPriorityQueue` (boosting disabled: `priority_boost_factor = 0`)
 
